@@ -108,6 +108,17 @@ func c11Setup(w *workspace, a []string, spoil ...string) runOpts {
 func implC11Spec(a []string) string {
 	w := newWorkspace()
 	defer w.cleanup()
+	// an earlier conversion in this process read other contents from the very same paths (every row named w… instead
+	// of n…): what a conversion reads is what the files hold now
+	warm := append([]string{}, a...)
+	warm[3] = strings.ReplaceAll(warm[3], ":n", ":w")
+	warm[4] = strings.ReplaceAll(warm[4], ":n", ":w")
+	wro := c11Setup(w, warm)
+	if err := w.genProto(wro); err == nil {
+		_ = w.genConf(wro)
+	}
+	os.RemoveAll(w.Conf)
+	os.MkdirAll(w.Conf, 0o755)
 	ro := c11Setup(w, a)
 	if err := w.genProto(ro); err != nil {
 		return "protoerr " + errCode(err)
